@@ -123,7 +123,9 @@ func (w *World) verifyContract(con *Contract, opts *RunOpts) (res *FuncResult) {
 					}
 				}
 			}
+			e.curCtx = &obCtx{shape: sc, pre: pre, con: con}
 			outs := e.run(st.clone(), fn, sc.Args)
+			e.curCtx = nil
 			var twinOuts []Out
 			if tw, ok := con.option("twin"); ok {
 				tcon := &Contract{Pkg: con.Pkg, Func: strings.TrimSpace(tw)}
